@@ -1807,7 +1807,9 @@ where
 /// For that, this function does not take `instance`s, but public inputs
 /// in raw format (`Vec<F>`).
 ///
-/// Returns `Ok(())` if all proofs are valid.
+/// Returns `Ok(())` if all proofs are valid (in particular, on an empty
+/// batch), and `Err(Error::InvalidInstances)` if `vks`, `pis` and `proofs` do
+/// not have the same length.
 pub fn batch_verify<H: TranscriptHash>(
     params_verifier: &ParamsVerifierKZG<midnight_curves::Bls12>,
     vks: &[MidnightVK],
@@ -1857,8 +1859,12 @@ where
 
     let r = r_transcript.squeeze_challenge();
 
-    let mut acc_guard = guards[0].clone();
-    for guard in guards.into_iter().skip(1) {
+    let mut guards = guards.into_iter();
+    // An empty batch is vacuously valid: there is no proof that could fail.
+    let Some(mut acc_guard) = guards.next() else {
+        return Ok(());
+    };
+    for guard in guards {
         acc_guard.scale(r);
         acc_guard.add_msm(guard);
     }
